@@ -34,6 +34,10 @@ def make_spec(rnd):
     k = rnd.choice([0, 0, 1, 2])
     lead += rest[:k]
     rest = rest[k:]
+    # constant definitions emit no rule of their own part: a block may start with one (or consist of one)
+    for _ in range(rnd.choice([0, 0, 1, 2])):
+        rest.insert(rnd.randrange(len(rest) + 1), rnd.choice(['maxload is a constant equal to 2.', 'limit is a constant.', 'depth is a constant equal to 7.']))
+    rest = [x for i, x in enumerate(rest) if x not in rest[:i] or ' is a constant' not in x]
     nh = rnd.randint(0, 6)
     hs = list(HEADERS)
     blocks = []
@@ -146,18 +150,19 @@ def run(tier, seed):
     tie_broken = []
     if not tie_ok:
         tie_broken.append('translator / grammar facts: ' + tout[-500:])
-    if proof['ok']:
+    if proof['ok'] or proof['extra_ok']:
         f = common.run_cases(PID, 'blk', PRE, cases, 'bcase_ok', shard=40)
-        if f:
-            tie_broken.append('block-routing model differs from the implementation on %d specifications, first: %r' % (len(f), meta[f[0]]['text']))
-    else:
+        for i in f[:2]:
+            # the model composes the program from the rules each sentence produces on its own: a difference is a routing difference
+            rep.violation('the program is not: the rules of the leading sentences under no directive, then the rules of each block under the directive of its header',
+                          meta[i])
+    if not proof['ok']:
         tie_broken.append('theorem file does not build: %s' % proof['failed_at'])
     if proof['bad']:
         tie_broken.append('forbidden tokens: %r' % proof['bad'])
     if tie_broken and not rep.violations:
         rep.violation('proof obligation or correspondence no longer checks and no failing input was found: ' + ' | '.join(tie_broken),
                       dict(kind='broken-tie', theorem='Props/C11.v / block-routing correspondence', details=tie_broken,
-                           first_differing_input=meta[f[0]] if proof['ok'] and f else None,
                            searched='%d block-structured specifications (0-6 headers, any order and repetition)' % len(specs)), no_input=True)
     elif tie_broken:
         rep.notes.extend(tie_broken)
